@@ -54,6 +54,9 @@ class Scenario:
         elif kind == "temp":
             H = runs.History(ctx, sb, rng, "C03", 3, 4)
             pre = 1
+        elif kind == "templast":    # the abandoned temporary sits in the last free slot of its group: complete backups + temporaries = max_backups_per_group
+            H = runs.History(ctx, sb, rng, "C03", 3, 2)
+            pre = 1
         elif kind == "bulk":    # files large enough for the archive to be written out while the walk is still going on
             H = runs.History(ctx, sb, rng, "C03", 3, 4)
             pre = 1
@@ -65,7 +68,7 @@ class Scenario:
         for _ in range(pre):
             H.run(nedits=1)
             H.now += 86400 if kind == "rotate" else 7
-        if kind == "temp":
+        if kind in ("temp", "templast"):
             la, _ = runs.listing(H.dec)
             g = la[-1][0]
             t = "." + time.strftime("%Y.%m.%d-%H:%M:%S", time.gmtime(H.now - 3))
@@ -286,8 +289,9 @@ def run_scenario(ctx, rng, kind, budget):
                 nm2 = time.strftime("%Y.%m.%d-%H:%M:%S", time.gmtime(H.now + 3))
                 pub2 = [g for g, fin, _, _ in la2 if nm2 in fin]
                 if not pub2:
-                    f3 = any((not fin) for _, fin, _, _ in la) or "already exists" in out2
-                    if not ("already exists" in out2):
+                    # "a new group on the same day is refused" is legitimate only when the newest group is genuinely full of complete backups
+                    newest_full = bool(la) and len(la[-1][1]) >= H.w.max_per
+                    if not ("already exists" in out2 and newest_full):
                         ctx.violation("recover", "%s: the follow-up run does not publish (exit %d)" % (label, rc2), {"scenario": kind, "injection": inj, "output": out2[-800:]})
                         return
                     ctx.count("recover.group-exists")
@@ -305,12 +309,12 @@ def run(ctx):
     build.ensure_vsb()
     build.ensure_vsbh()
     budget = None if thorough else 7
-    ctx.rule = ("6 scenarios (new files of 150-400 kB so that the archive is written out during the walk - every write to data.tar.zst is faulted; first backup; append; rotation with removal of the old group; abandoned temporary present; two runs within one "
+    ctx.rule = ("7 scenarios (new files of 150-400 kB so that the archive is written out during the walk - every write to data.tar.zst is faulted; first backup; append; rotation with removal of the old group; abandoned temporary present - also in the last free slot of its group; two runs within one "
                 "second) ; in each the reference run's storage calls (mkdir, O_EXCL create, write, fsync, rename, unlink/rmdir) are enumerated and "
                 "%s of them are re-run with the process killed at the call and with the call failing with ENOSPC / EIO / EACCES; each injected run is "
                 "followed by a recovery run. Non-trivial: every injected run; distinct by (scenario, call index, variant)."
                 % ("ALL" if thorough else "the mkdir / fsync / rename calls plus a sample of 7"))
-    for kind in ("bulk", "first", "append", "rotate", "temp", "collision"):
+    for kind in ("bulk", "first", "append", "rotate", "temp", "templast", "collision"):
         run_scenario(ctx, rng, kind, budget)
         if ctx.violations:
             break
